@@ -30,6 +30,11 @@ FAMILIES = {
     "retry": dict(profile="retry", over={"fail_levels": 1, "fanout_handlers": False}),
     # Catch on the Map/Parallel state itself (every ResultPath form) with failing branches; no Retry anywhere, so the
     # recorded C06/C07 findings (sibling in a Retry back-off; RetryCount leaking into the fan-out) cannot be touched
+    # Retry/Catch on single-branch / single-item fan-outs: no sibling is in flight when the fan-out fails
+    "retry_fanout1": dict(profile="retry", over={"fail_levels": 1, "fanout_handlers": True, "retry_in_retried_fanout": False,
+                                                 "types": dict(Pass=2, Task=6, Choice=1, Wait=1, Succeed=1, Fail=1,
+                                                               Parallel=3, Map=3)},
+                          sizes=dict(depth=1, fan=1, items=1)),
     "fanout_caught": dict(profile="fanout_fail", over={"fail_levels": 1, "fanout_handlers": True, "p_retry": 0.0,
                                                        "p_catch": 0.8, "p_err": 0.45}),
 }
@@ -61,6 +66,7 @@ def gen_program(rng, family, tier):
     if "fail_levels" in f["over"]:
         # families that generate failures do not nest fan-outs (nested failure propagation is a recorded finding)
         sizes["depth"] = 1
+    sizes.update(f.get("sizes") or {})
     return GM.generate(rng, prof, sizes)
 
 
